@@ -268,9 +268,9 @@ func resolveCond(v Value, g *Term) Value {
 		if !ok {
 			return v
 		}
-		if And(g, Not(cv.C)).IsFalse() {
+		if x := And(g, Not(cv.C)); x.IsFalse() || semFalse(x) {
 			v = cv.A
-		} else if And(g, cv.C).IsFalse() {
+		} else if y := And(g, cv.C); y.IsFalse() || semFalse(y) {
 			v = cv.B
 		} else {
 			panic(Inconclusive{"value of mixed shape could not be resolved under the path guard: C=" + cv.C.String() + " G=" + g.String() + " A=" + valStr(cv.A) + " B=" + valStr(cv.B)})
